@@ -253,7 +253,7 @@ pub fn gen_c15(out: &mut dyn Write, seed: u64, thorough: bool) {
                 let r = ((149 * pos) % 255 + 1) as u16;
                 cw.push(((*b as u16 + r) % 256) as u8);
             }
-            writeln!(out, "M dstr {} => {}", hex(&cw), dstr(&cw)).unwrap();
+            writeln!(out, "P dstr {} => {}", hex(&cw), dstr(&cw)).unwrap();
         }
     }
     for _ in 0..(if thorough { 50000 } else { 5000 }) {
@@ -264,7 +264,7 @@ pub fn gen_c15(out: &mut dyn Write, seed: u64, thorough: bool) {
             let b = if e == 26 && rng.chance(1, 2) { *rng.pick(&[0xC3u8, 0xA9, 0xE2, 0x82, 0xAC, 0xF0, 0x9F, 0xA5, 0xB8, 0x41]) } else { rng.byte() };
             if b < 128 { cw.push(b + 1) } else { cw.push(235); cw.push(b - 127) }
         }
-        writeln!(out, "M dstr {} => {}", hex(&cw), dstr(&cw)).unwrap();
+        writeln!(out, "P dstr {} => {}", hex(&cw), dstr(&cw)).unwrap();
     }
     writeln!(out, "# eci_numbers {}", n_eci).unwrap();
     writeln!(out, "# designators_1_2_codewords {}", 256 + 65536).unwrap();
